@@ -94,7 +94,9 @@ def make_jobs(rng):
     jobs.append(('PadIfNeededS_update_params', 'PadIfNeeded', kw, [H, W, D], lambda o: o.update_params({}, image=img), None))
     jobs.append(('FlipS_get_params', 'Flip', {}, [], lambda o: o.get_params(), None))
     jobs.append(('RandomCropS_get_params', 'RandomCrop', dict(height=3, width=3, depth=2), [], lambda o: o.get_params(), None))
-    kw = {k: rng.choice([0.1, 0.3, 0.45]) for k in ('crop_left', 'crop_right', 'crop_top', 'crop_bottom', 'crop_close', 'crop_far')}
+    # dyadic fractions: int(fraction * extent) is then the same in float64 and in exact arithmetic (no truncation at a
+    # value that is an integer only up to round-off)
+    kw = {k: rng.choice([0.125, 0.25, 0.375, 0.4375]) for k in ('crop_left', 'crop_right', 'crop_top', 'crop_bottom', 'crop_close', 'crop_far')}
     jobs.append(('RandomCropFromBordersS_get_params_dependent_on_targets', 'RandomCropFromBorders', kw, [shape],
                  lambda o: o.get_params_dependent_on_targets({'image': img}), None))
     bxs = boxes_norm(rng, rng.randint(0, 3))
